@@ -41,18 +41,15 @@ func (r *lineLimitReader) Read(b []byte) (int, error) {
 	}
 	if err != nil {
 		r.err = err
-		return n, err
 	}
 
-	if r.LineLimit == 0 {
-		return n, nil
-	}
-
-	if !r.count(b[:n]) {
+	// What was read is counted also when it comes together with an error (a
+	// TLS connection hands out the last record together with io.EOF).
+	if r.LineLimit != 0 && !r.count(b[:n]) {
 		return 0, ErrTooLongLine
 	}
 
-	return n, nil
+	return n, err
 }
 
 // count adds b to the length of the current line and reports whether every
